@@ -17,6 +17,7 @@ import (
 	bp "ebuverif/internal/busprog"
 	"ebuverif/internal/evt"
 	"ebuverif/internal/h"
+	"ebuverif/internal/stores"
 	"ebuverif/vrt"
 
 	eventbus "github.com/jilio/ebu"
@@ -203,6 +204,71 @@ func mixScenarios(thorough bool) []vrt.Scenario {
 	return scs
 }
 
+// ---------------------------------------------------------------- SQLite store under concurrent use
+
+type sqlInst struct {
+	name string
+	acts []string
+	st   string
+}
+
+func (m *sqlInst) Body() {
+	med, err := stores.NewMedium("sqlite-batch2")
+	if err != nil {
+		panic(err)
+	}
+	defer med.Destroy()
+	hd, err := med.Open()
+	if err != nil {
+		panic(err)
+	}
+	defer hd.Close()
+	evt.Deliver = func(ti, slot, id int, ctx context.Context) {}
+	bus := eventbus.New(hd.BusOptions()...)
+	bp.Types[0].Sub(bus, 0, evt.SubOpts{})
+	bp.Types[0].Pub(bus, 1)
+	ev := func(i int) *eventbus.Event {
+		return &eventbus.Event{Type: "x", Data: json.RawMessage(fmt.Sprintf(`{"i":%d}`, i)), Timestamp: time.Unix(int64(i), 0)}
+	}
+	do := map[string]func(){
+		"Append": func() { hd.Store.Append(bg, ev(2)) },
+		"Read":   func() { hd.Store.Read(bg, eventbus.OffsetOldest, 0) },
+		"ReadStream": func() {
+			for range hd.Stream.ReadStream(bg, eventbus.OffsetOldest) {
+			}
+		},
+		"SaveOffset":          func() { hd.Sub.SaveOffset(bg, "s", "1") },
+		"LoadOffset":          func() { hd.Sub.LoadOffset(bg, "s") },
+		"Publish":             func() { bp.Types[0].Pub(bus, 3) },
+		"Replay":              func() { bus.Replay(bg, eventbus.OffsetOldest, func(*eventbus.StoredEvent) error { return nil }) },
+		"SubscribeWithReplay": func() { bp.Types[0].SubReplay(bg, bus, "sub", 1, evt.SubOpts{}) },
+	}
+	for _, a := range m.acts {
+		f := do[a]
+		vrt.Go(f)
+	}
+	vrt.Join()
+}
+
+func (m *sqlInst) Outcome() string { return m.st }
+func (m *sqlInst) Check(res *vrt.Result) []vrt.Violation {
+	m.st = res.Status.String()
+	return statusViolations(m.name, res)
+}
+
+func sqlScenarios() []vrt.Scenario {
+	names := []string{"Append", "Read", "ReadStream", "SaveOffset", "LoadOffset", "Publish", "Replay", "SubscribeWithReplay"}
+	var scs []vrt.Scenario
+	for i := range names {
+		for j := i; j < len(names); j++ {
+			acts := []string{names[i], names[j]}
+			name := "sqlite " + names[i] + " || " + names[j]
+			scs = append(scs, vrt.Scenario{Name: name, New: func() vrt.Instance { return &sqlInst{name: name, acts: acts} }})
+		}
+	}
+	return scs
+}
+
 // ---------------------------------------------------------------- re-entrancy
 
 var positions = []string{"handler", "handler-ctx", "handler-async", "handler-once", "handler-sequential", "handler-async-sequential", "filter", "before-hook", "before-hook-ctx", "after-hook", "after-hook-ctx"}
@@ -338,7 +404,7 @@ func reScenarios(thorough bool) []vrt.Scenario {
 }
 
 func all(thorough bool) []vrt.Scenario {
-	return append(mixScenarios(thorough), reScenarios(thorough)...)
+	return append(append(mixScenarios(thorough), reScenarios(thorough)...), sqlScenarios()...)
 }
 
 func run(c *h.Check) {
